@@ -1,5 +1,6 @@
 import IstioModel.Common.Wire
 import IstioModel.C04.Model
+import IstioModel.C04.Protocol
 
 /-! Line-protocol driver for C04 (streams `sotw` and `delta`). See harness/c04. -/
 namespace IstioModel.C04
@@ -32,9 +33,8 @@ def showState (s : State) : String :=
 def decErr (t : String) : Option String :=
   if t == "-" then none else some (dec ((t.drop 2).toString))
 
-def step (s : State) (toks : List String) : State × String :=
+def stepBasic (s : State) (toks : List String) : State × String :=
   match toks with
-  | "case" :: _ => (State.empty, "ok")
   | ["req", ty, names, nonce, err] =>
     match Ty.ofTok ty with
     | none => (s, "bad-op")
@@ -61,5 +61,44 @@ def step (s : State) (toks : List String) : State × String :=
       let nn := if names == "nil" then none else some (decList names)
       let s' := sendDelta s t (dec nonce) nn (tokBool ok); (s', showState s')
   | _ => (s, "bad-op")
+
+/-- Driver state: the bare watch table (streams `sotw`, `delta`) and the closed-loop system of
+    `Protocol.lean` (stream `loop`). -/
+structure DState where
+  st  : State := State.empty
+  sys : Sys := Sys.init State.empty [] ""
+  ty  : Ty := .cds
+
+def showReq (r : Req) : String :=
+  let e := match r.err with
+    | none => "-"
+    | some m => "e:" ++ enc m
+  s!"{enc r.nonce}/{encSet r.names}/{e}"
+
+def showSys (y : Sys) : String :=
+  let c := if y.c2s.isEmpty then "-" else ";".intercalate (y.c2s.map showReq)
+  s!"{showState y.srv} | c2s={c} s2c={encList y.s2c} cnonce={enc y.cnonce} cnames={encSet y.cnames} sent={boolTok y.sentAny} nack={boolTok y.lastNack}"
+
+def decNack (t : String) : Option String :=
+  if t == "-" then none else some (dec ((t.drop 2).toString))
+
+def stepD (d : DState) (toks : List String) : DState × String :=
+  match toks with
+  | ["case", _, "loop", ty, nonce] =>
+    match Ty.ofTok ty with
+    | none => (d, "bad-op")
+    | some t => ({ d with ty := t, sys := Sys.init State.empty [] (dec nonce) }, "ok")
+  | "case" :: _ => ({ d with st := State.empty }, "ok")
+  | ["cchange", names] =>
+    let y := IstioModel.C04.step d.ty d.sys (.clientChange (decList names)); ({ d with sys := y }, showSys y)
+  | ["crecv", nack] =>
+    let y := IstioModel.C04.step d.ty d.sys (.clientRecv (decNack nack)); ({ d with sys := y }, showSys y)
+  | ["srecv", n] =>
+    let y := IstioModel.C04.step d.ty d.sys (.serverRecv (dec n)); ({ d with sys := y }, showSys y)
+  | ["spush", n] =>
+    let y := IstioModel.C04.step d.ty d.sys (.serverPush (dec n)); ({ d with sys := y }, showSys y)
+  | ["always"] =>
+    let y := IstioModel.C04.step d.ty d.sys .envAlways; ({ d with sys := y }, showSys y)
+  | _ => let (s', o) := stepBasic d.st toks; ({ d with st := s' }, o)
 
 end IstioModel.C04
